@@ -2,8 +2,9 @@
 from __future__ import annotations
 
 import ast
+import re
 
-from ..core import INCONCLUSIVE, OK, VIOLATION, Ctx, canon, is_self_attr, local_defs
+from ..core import INCONCLUSIVE, OK, VIOLATION, Ctx, canon, cond_is, is_self_attr, local_defs
 from ..model import AnalysisError, Inconclusive, body_walk, norm
 from . import c05, c06, c07
 
@@ -62,60 +63,147 @@ def o3(ctx: Ctx):
     order = [norm(v.func).split(".")[-1] for _, v, _ in cand_steps]
     ok = order == ["candidates_generator", "apply_deme_filters", "apply_tree_filters"]
     name = cand_steps[0][0] if cand_steps else "?"
-    threaded = ok and all(n == name for n, _, _ in cand_steps) and [norm(a) for a in cand_steps[1][1].args] == [name, tree_p] and [norm(a) for a in cand_steps[2][1].args] == [name, tree_p]
-    obs.append(ctx.ob("C08.O3", gs, cand_steps[-1][2] if cand_steps else gs.node, status=OK if (ok and threaded) else VIOLATION, detail="generator -> deme filters -> tree filters, threaded through one variable" if (ok and threaded) else f"get_seeds applies {order} (tree-level filters must run last on the deme-filtered candidates)", construct="chain-order"))
+    threaded = ok and [norm(a) for a in cand_steps[1][1].args] == [cand_steps[0][0], tree_p] and [norm(a) for a in cand_steps[2][1].args] == [cand_steps[1][0], tree_p]
+    if ok and threaded:
+        name = cand_steps[2][0]
+        st_chain = OK
+    elif sorted(order) == sorted(["candidates_generator", "apply_deme_filters", "apply_tree_filters"]) or (len(order) == 3 and ok):
+        st_chain = VIOLATION  # all three steps are there, but in another order / not fed with the previous result
+    elif "apply_tree_filters" not in {norm(c.func).split(".")[-1] for c in body_walk(gs.node) if isinstance(c, ast.Call)}:
+        st_chain = VIOLATION  # the tree-level filters are not applied at all
+    else:
+        st_chain = INCONCLUSIVE
+    obs.append(ctx.ob("C08.O3", gs, cand_steps[-1][2] if cand_steps else gs.node, status=st_chain, detail="generator -> deme filters -> tree filters, each fed with the previous result" if st_chain == OK else f"get_seeds applies {order} (tree-level filters must run last on the deme-filtered candidates)", construct="chain-order"))
     # nothing reassigns the candidates between the tree filters and the return
     rets = [r for r in body_walk(gs.node) if isinstance(r, ast.Return)]
-    okr = False
-    if len(rets) == 1 and isinstance(rets[0].value, ast.DictComp):
-        dc = rets[0].value
-        g = dc.generators[0]
-        if norm(g.iter) == f"{name}.items()" and isinstance(g.target, ast.Tuple) and len(g.ifs) == 1:
-            k, v = [x.id for x in g.target.elts]
-            cond = norm(g.ifs[0])
-            okr = norm(dc.key) == k and norm(dc.value) == v and cond in (f"{name}[{k}].individuals", f"{v}.individuals", f"len({v}.individuals) > 0", f"len({name}[{k}].individuals) > 0")
-    elif len(rets) == 1 and norm(rets[0].value) == name:
-        okr = True
-    last_idx = gs.node.body.index(cand_steps[-1][2]) if cand_steps else -1
-    later_writes = [st for st in gs.node.body[last_idx + 1:] for t in ast.walk(st) if isinstance(t, ast.Name) and isinstance(t.ctx, ast.Store) and t.id == name] if ok else []
-    later_mut = [c for st in gs.node.body[last_idx + 1:] for c in ast.walk(st) if isinstance(c, (ast.Assign, ast.AugAssign)) and any(isinstance(t, (ast.Subscript, ast.Attribute)) and name in {x.id for x in ast.walk(t) if isinstance(x, ast.Name)} for t in (c.targets if isinstance(c, ast.Assign) else [c.target]))] if ok else []
-    obs.append(ctx.ob("C08.O3", gs, rets[0] if rets else gs.node, status=OK if (okr and not later_writes and not later_mut) else VIOLATION, detail="returns the filtered candidates, dropping only parents left without candidates" if (okr and not later_writes and not later_mut) else "get_seeds changes the candidates after the tree-level filters ran (or returns something else)", construct="return"))
+    last_idx = gs.node.body.index(cand_steps[-1][2]) if (cand_steps and cand_steps[-1][2] in gs.node.body) else -1
+    tail = gs.node.body[last_idx + 1:] if st_chain == OK else []
+
+    def drop_empty_of(e, src):
+        """e is `src` itself or {k: src[k] for k in src.keys() if src[k].individuals}"""
+        if isinstance(e, ast.Name) and e.id == src:
+            return True
+        if isinstance(e, ast.Call) and norm(e.func) == "dict" and len(e.args) == 1 and not e.keywords:
+            return drop_empty_of(e.args[0], src)
+        if isinstance(e, ast.DictComp) and len(e.generators) == 1:
+            g = e.generators[0]
+            if isinstance(g.target, ast.Name) and canon(g.iter) in (f"{src}.keys()", src, f"list({src})", f"list({src}.keys())"):
+                k = g.target.id
+                if norm(e.key) == k and canon(e.value) == f"{src}[{k}]":
+                    lst = f"{src}[{k}].individuals"
+                    return all(any(cond_is(c, w) for w in (lst, f"len({lst}) > 0", f"len({lst}) != 0", f"{lst} != []")) for c in g.ifs)
+        return False
+
+    cur = name
+    st_ret = OK
+    why_ret = ""
+    for stt in tail:
+        if isinstance(stt, ast.Return):
+            if stt.value is None or not drop_empty_of(stt.value, cur):
+                st_ret = VIOLATION if stt.value is None else INCONCLUSIVE
+                why_ret = f"returns `{norm(stt.value)[:70] if stt.value is not None else 'nothing'}`"
+            break
+        if isinstance(stt, ast.Assign) and len(stt.targets) == 1 and isinstance(stt.targets[0], ast.Name):
+            if drop_empty_of(stt.value, cur):
+                cur = stt.targets[0].id
+                continue
+            if stt.targets[0].id == cur:
+                st_ret, why_ret = INCONCLUSIVE, f"`{norm(stt)[:70]}` rebinds the filtered candidates"
+                break
+            continue
+        # mutation of the filtered mapping (item stores / deletes / attribute stores through it / mutating calls on it)
+        mut = None
+        for x in ast.walk(stt):
+            if isinstance(x, (ast.Assign, ast.AugAssign, ast.Delete)):
+                for tt in (x.targets if isinstance(x, (ast.Assign, ast.Delete)) else [x.target]):
+                    if isinstance(tt, (ast.Subscript, ast.Attribute)) and cur in {y.id for y in ast.walk(tt) if isinstance(y, ast.Name)}:
+                        mut = x
+            if isinstance(x, ast.Call) and isinstance(x.func, ast.Attribute) and x.func.attr in ("pop", "popitem", "clear", "update", "setdefault", "append", "extend", "insert", "remove") and cur in {y.id for y in ast.walk(x.func.value) if isinstance(y, ast.Name)}:
+                mut = x
+        if mut is not None:
+            st_ret, why_ret = VIOLATION, f"`{norm(mut)[:70]}` changes the candidates after the tree-level filters ran"
+            break
+    else:
+        if st_chain == OK:
+            st_ret, why_ret = VIOLATION, "get_seeds does not return the filtered candidates"
+    if st_chain != OK:
+        st_ret, why_ret = INCONCLUSIVE, "filter chain not recognised"
+    obs.append(ctx.ob("C08.O3", gs, rets[0] if rets else gs.node, status=st_ret, detail="returns the filtered candidates, dropping only parents left without candidates" if st_ret == OK else f"get_seeds changes the candidates after the tree-level filters ran (or returns something else): {why_ret}", construct="return"))
     # apply_tree_filters applies every filter of the chain in order, feeding each the previous result
     for meth, chain_attr in (("apply_tree_filters", "tree_filter_chain"), ("apply_deme_filters", "deme_filter_chain")):
         m = P.own_method("SproutMechanism", meth)
         msn = m.self_name()
         cp, tp = m.params()[1], m.params()[2]
         loops = [n for n in m.node.body if isinstance(n, ast.For)]
-        okm = False
-        if len(loops) == 1 and norm(loops[0].iter) == f"{msn}.{chain_attr}" and isinstance(loops[0].target, ast.Name) and len(loops[0].body) == 1:
-            b = loops[0].body[0]
+        st_m = INCONCLUSIVE
+        if len(loops) == 1 and isinstance(loops[0].target, ast.Name):
+            it = canon(loops[0].iter)
             fv = loops[0].target.id
-            okm = isinstance(b, ast.Assign) and norm(b.targets[0]) == cp and isinstance(b.value, ast.Call) and norm(b.value.func) == fv and [norm(a) for a in b.value.args] == [cp, tp]
+            b = loops[0].body[0] if len(loops[0].body) == 1 else None
+            step_ok = isinstance(b, ast.Assign) and norm(b.targets[0]) == cp and isinstance(b.value, ast.Call) and norm(b.value.func) in (fv, f"{fv}.__call__") and [norm(a) for a in b.value.args] == [cp, tp]
+            if it in (f"{msn}.{chain_attr}", f"list({msn}.{chain_attr})") and step_ok and not any(isinstance(x, (ast.Break, ast.Continue, ast.Return)) for x in ast.walk(loops[0])):
+                st_m = OK
+            elif it.startswith(f"{msn}.{chain_attr}[") or it in (f"reversed({msn}.{chain_attr})", f"{msn}.{chain_attr}[::-1]") or (step_ok and any(isinstance(x, (ast.Break, ast.Return)) for x in ast.walk(loops[0]))):
+                st_m = VIOLATION  # a slice / the reverse of the chain, or an early exit
+            elif it == f"{msn}.{chain_attr}" and isinstance(b, ast.Expr) and isinstance(b.value, ast.Call) and norm(b.value.func) == fv:
+                st_m = VIOLATION  # result of a filter discarded
+        elif not loops and not any(chain_attr in norm(x) for x in body_walk(m.node) if isinstance(x, ast.Attribute)):
+            st_m = VIOLATION  # the chain is not consulted at all
         mr = [r for r in body_walk(m.node) if isinstance(r, ast.Return)]
-        okm = okm and len(mr) == 1 and norm(mr[0].value) == cp
-        obs.append(ctx.ob("C08.O3", m, m.node, status=OK if okm else VIOLATION, detail=f"{meth}: every filter of {chain_attr} applied in order" if okm else f"{meth} does not apply every filter of {chain_attr} in order to the running candidates", construct=meth))
+        if st_m == OK and not (len(mr) == 1 and mr[0].value is not None and norm(mr[0].value) == cp):
+            st_m = INCONCLUSIVE
+        obs.append(ctx.ob("C08.O3", m, m.node, status=st_m, detail=f"{meth}: every filter of {chain_attr} applied in order" if st_m == OK else f"{meth} does not apply every filter of {chain_attr} in order to the running candidates", construct=meth))
     # run_sprout passes get_seeds' result unchanged (R18.3 checks the same provenance)
     rs = P.own_method("DemeTree", "run_sprout")
     defs = local_defs(rs)
     calls = [c for c in body_walk(rs.node) if isinstance(c, ast.Call) and norm(c.func) == f"{rs.self_name()}._do_sprout"]
-    okp = len(calls) == 1 and len(calls[0].args) == 1 and isinstance(calls[0].args[0], ast.Name) and len(defs.get(calls[0].args[0].id, [])) == 1 and isinstance(defs[calls[0].args[0].id][0], ast.Call) and norm(defs[calls[0].args[0].id][0].func).endswith(".get_seeds")
-    obs.append(ctx.ob("C08.O3", rs, calls[0] if calls else rs.node, status=OK if okp else VIOLATION, detail="_do_sprout receives exactly what get_seeds returned" if okp else "run_sprout does not hand get_seeds' result unchanged to _do_sprout", construct="handover"))
+    st_h = INCONCLUSIVE
+    if len(calls) == 1 and len(calls[0].args) == 1:
+        a = calls[0].args[0]
+        hops = 0
+        while isinstance(a, ast.Name) and len(defs.get(a.id, [])) == 1 and hops < 4:
+            a = defs[a.id][0]
+            hops += 1
+        if isinstance(a, ast.Call) and norm(a.func).endswith(".get_seeds"):
+            st_h = OK
+        elif isinstance(a, (ast.Dict, ast.DictComp, ast.Constant)):
+            st_h = VIOLATION
+    elif not calls:
+        st_h = VIOLATION
+    obs.append(ctx.ob("C08.O3", rs, calls[0] if calls else rs.node, status=st_h, detail="_do_sprout receives exactly what get_seeds returned" if st_h == OK else "run_sprout does not hand get_seeds' result unchanged to _do_sprout", construct="handover"))
     # factories
     for fname in ("get_NBC_sprout", "get_simple_sprout"):
         fac = P.func("pyhms.sprout.sprout_mechanisms", fname)
+        fdefs = local_defs(fac)
         ctor = [c for c in body_walk(fac.node) if isinstance(c, ast.Call) and norm(c.func) == "SproutMechanism"]
-        okf = False
-        why = "no SproutMechanism(...) construction"
+        st_f = INCONCLUSIVE
+        why = "no single SproutMechanism(...) construction"
         if len(ctor) == 1:
-            args = list(ctor[0].args) + [k.value for k in ctor[0].keywords]
             tchain = next((k.value for k in ctor[0].keywords if k.arg == "tree_filter_chain"), ctor[0].args[2] if len(ctor[0].args) > 2 else None)
-            if isinstance(tchain, ast.List) and tchain.elts:
-                last = tchain.elts[-1]
-                okf = isinstance(last, ast.Call) and norm(last.func) == "LevelLimit" and len(last.args) == 1 and norm(last.args[0]) == "level_limit"
-                why = f"last tree filter is `{norm(last)}`"
+            hops = 0
+            while isinstance(tchain, ast.Name) and len(fdefs.get(tchain.id, [])) == 1 and hops < 4:
+                tchain = fdefs[tchain.id][0]
+                hops += 1
+            if isinstance(tchain, (ast.List, ast.Tuple)):
+                elts = [fdefs[e.id][0] if isinstance(e, ast.Name) and len(fdefs.get(e.id, [])) == 1 else e for e in tchain.elts]
+                is_ll = [isinstance(e, ast.Call) and norm(e.func) == "LevelLimit" for e in elts]
+                if elts and is_ll[-1]:
+                    last = elts[-1]
+                    arg = last.args[0] if last.args else next((k.value for k in last.keywords if k.arg == "limit"), None)
+                    at = canon(arg, fdefs) if arg is not None else "?"
+                    if at == "level_limit":
+                        st_f = OK
+                    elif isinstance(arg, (ast.Constant, ast.BinOp)) or at in fac.params():
+                        st_f, why = VIOLATION, f"the last tree filter is LevelLimit({at}), not LevelLimit(level_limit)"
+                    else:
+                        why = f"cannot tell what limit `{at}` is"
+                elif all(isinstance(e, ast.Call) for e in elts):
+                    st_f, why = VIOLATION, (f"last tree filter is `{norm(elts[-1])}`" if elts else "the tree filter chain is empty")
+                else:
+                    why = f"cannot resolve every element of the tree filter chain `{norm(tchain)[:60]}`"
             else:
                 why = f"tree filter chain is `{norm(tchain) if tchain is not None else '?'}`"
-        obs.append(ctx.ob("C08.O3", fac, ctor[0] if ctor else fac.node, status=OK if okf else VIOLATION, detail=f"{fname}: LevelLimit(level_limit) is the last tree-level filter" if okf else f"{fname}: {why}; the configured level limit is not enforced last", construct=f"factory:{fname}"))
+        obs.append(ctx.ob("C08.O3", fac, ctor[0] if ctor else fac.node, status=st_f, detail=f"{fname}: LevelLimit(level_limit) is the last tree-level filter" if st_f == OK else f"{fname}: {why}; the configured level limit is not enforced last", construct=f"factory:{fname}"))
     return obs
 
 
@@ -138,6 +226,15 @@ def _kind_of_order(sort_call_or_stmt, elt_var_hint=None):
         else:
             key_txt = "?" + norm(key)
     return desc, key_txt
+
+
+def _strip_not(t):
+    """not (a <= b) -> a > b"""
+    inv = {ast.Lt: ast.GtE, ast.LtE: ast.Gt, ast.Gt: ast.LtE, ast.GtE: ast.Lt, ast.Eq: ast.NotEq, ast.NotEq: ast.Eq}
+    while isinstance(t, ast.UnaryOp) and isinstance(t.op, ast.Not) and isinstance(t.operand, ast.Compare) and len(t.operand.ops) == 1 and type(t.operand.ops[0]) in inv:
+        c = t.operand
+        t = ast.copy_location(ast.Compare(left=c.left, ops=[inv[type(c.ops[0])]()], comparators=c.comparators), c)
+    return t
 
 
 def o4(ctx: Ctx):
@@ -163,23 +260,28 @@ def o4(ctx: Ctx):
         return [ctx.ob("C08.O4", f, L, status=INCONCLUSIVE, detail=f"expected one guard per level, found {len(guards)}", construct="guard")]
     G = guards[0]
     # ---- guard: A + len(C) > limit
-    t = G.test
+    t = _strip_not(G.test)
     okg = False
     A = C = None
+    shape = False
     if isinstance(t, ast.Compare) and len(t.ops) == 1:
         l, r, op = t.left, t.comparators[0], t.ops[0]
-        if isinstance(op, ast.Lt):
-            l, r, op = r, l, ast.Gt()
-        if isinstance(op, ast.Gt) and canon(r) == f"{sn}.limit" and isinstance(l, ast.BinOp) and isinstance(l.op, ast.Add):
+        if isinstance(op, (ast.Lt, ast.LtE)):
+            l, r, op = r, l, (ast.Gt() if isinstance(op, ast.Lt) else ast.GtE())
+        # also accept  len(C) > limit - A   /   A > limit - len(C)
+        if isinstance(op, (ast.Gt, ast.GtE)) and isinstance(r, ast.BinOp) and isinstance(r.op, ast.Sub) and canon(r.left) == f"{sn}.limit" and not (isinstance(l, ast.BinOp) and isinstance(l.op, ast.Add)):
+            l, r = ast.BinOp(left=l, op=ast.Add(), right=r.right), r.left
+        if isinstance(op, (ast.Gt, ast.GtE)) and canon(r) == f"{sn}.limit" and isinstance(l, ast.BinOp) and isinstance(l.op, ast.Add):
             parts = [l.left, l.right]
             lens = [p for p in parts if isinstance(p, ast.Call) and norm(p.func) == "len" and isinstance(p.args[0], ast.Name)]
             rest = [p for p in parts if p not in lens]
             if len(lens) == 1 and len(rest) == 1:
                 C = lens[0].args[0].id
                 A = rest[0]
-                okg = True
+                shape = True
+                okg = isinstance(op, ast.Gt)
     if not okg:
-        obs.append(ctx.ob("C08.O4", f, t, status=VIOLATION if isinstance(t, ast.Compare) else INCONCLUSIVE, detail=f"guard is `{norm(t)}`, not `active + len(candidates) > limit` (with `>=` or another bound the else-branch no longer guarantees active + candidates <= limit)", construct="guard"))
+        obs.append(ctx.ob("C08.O4", f, G.test, status=VIOLATION if shape else INCONCLUSIVE, detail=f"guard is `{norm(G.test)}`, not `active + len(candidates) > limit` (with `>=` or another bound the else-branch no longer guarantees active + candidates <= limit)", construct="guard"))
         return obs
     obs.append(ctx.ob("C08.O4", f, t, detail=f"guard: {norm(A)} + len({C}) > limit", construct="guard"))
     # ---- A = number of is_active demes of tree.levels[level + 1]
@@ -194,16 +296,29 @@ def o4(ctx: Ctx):
     Aexp = A
     while isinstance(Aexp, ast.Name) and Aexp.id in defs and len(defs[Aexp.id]) == 1:
         Aexp = defs[Aexp.id][0]
-    if isinstance(Aexp, ast.Call) and norm(Aexp.func) in ("len", "sum") and Aexp.args and isinstance(Aexp.args[0], (ast.ListComp, ast.GeneratorExp)):
+    st_a = INCONCLUSIVE
+    why_a = f"cannot recognise `{norm(Aexp)[:70]}` as the number of active demes of {tree_p}.levels[{lv} + 1]"
+    if isinstance(Aexp, ast.Call) and norm(Aexp.func) in ("len", "sum") and Aexp.args and isinstance(Aexp.args[0], (ast.ListComp, ast.GeneratorExp)) and len(Aexp.args[0].generators) == 1:
         comp = Aexp.args[0]
         g = comp.generators[0]
         v = g.target.id if isinstance(g.target, ast.Name) else "?"
-        src_ok = canon(g.iter) in (f"{tree_p}.levels[{lv}+1]", f"{tree_p}._levels[{lv}+1]")
-        if norm(Aexp.func) == "len":
-            ok_a = src_ok and len(comp.generators) == 1 and [norm(c) for c in g.ifs] == [f"{v}.is_active"]
-        else:
-            ok_a = src_ok and len(comp.generators) == 1 and (([norm(c) for c in g.ifs] == [f"{v}.is_active"] and norm(comp.elt) == "1") or (not g.ifs and norm(comp.elt) == f"{v}.is_active"))
-    obs.append(ctx.ob("C08.O4", f, Aexp, status=OK if ok_a else VIOLATION, detail="active = number of is_active demes on the target level" if ok_a else f"`{norm(Aexp)}` is not the number of active demes of {tree_p}.levels[{lv} + 1] (an under-count lets the level overflow)", construct="active-count"))
+        it = canon(g.iter, {k: d for k, d in defs.items() if k != lv})
+        src_ok = it in (f"{tree_p}.levels[{lv}+1]", f"{tree_p}._levels[{lv}+1]", f"{tree_p}.levels[1+{lv}]")
+        src_levels = it.startswith((f"{tree_p}.levels[", f"{tree_p}._levels["))
+        conds = [canon(c) for c in g.ifs]
+        counts_elems = norm(Aexp.func) == "len" or canon(comp.elt) in ("1", "True")
+        counts_flag = norm(Aexp.func) == "sum" and not g.ifs and canon(comp.elt) in (f"{v}.is_active", f"int({v}.is_active)", f"1if{v}.is_activeelse0")
+        if src_ok and ((counts_elems and conds == [f"{v}.is_active"]) or counts_flag):
+            st_a = OK
+        elif src_ok and counts_elems and not conds:
+            st_a, why_a = OK, "all demes of the target level are counted (an over-count: the bound still holds)"
+        elif src_levels and not src_ok:
+            st_a, why_a = VIOLATION, f"`{norm(Aexp)[:70]}` counts demes of `{norm(g.iter)}`, not of the target level {tree_p}.levels[{lv} + 1] (an under-count lets the level overflow)"
+        elif src_ok and counts_elems and conds and all(re.fullmatch(r"not" + re.escape(v) + r"\.is_active|" + re.escape(v) + r"\.is_active(==|is)False", c) for c in conds):
+            st_a, why_a = VIOLATION, f"`{norm(Aexp)[:70]}` counts the INACTIVE demes of the target level"
+    elif isinstance(Aexp, ast.Constant):
+        st_a, why_a = VIOLATION, f"the number of active demes is taken to be the constant {norm(Aexp)}"
+    obs.append(ctx.ob("C08.O4", f, Aexp, status=st_a, detail="active = number of is_active demes on the target level" if st_a == OK and why_a.startswith("cannot") else why_a, construct="active-count"))
     # ---- C = concatenation of candidates[d].individuals over the parents D of this level; later filtered lists are exactly those
     cdefs = defs.get(C, [])
     ok_c = False
@@ -217,8 +332,15 @@ def o4(ctx: Ctx):
     if not ok_c:
         return obs
     ddefs = defs.get(D, [])
-    ok_d = len(ddefs) == 1 and isinstance(ddefs[0], ast.ListComp) and len(ddefs[0].generators) == 1 and canon(ddefs[0].generators[0].iter) in (f"{cand_p}.keys()", cand_p) and [canon(c) for c in ddefs[0].generators[0].ifs] == [f"{ddefs[0].generators[0].target.id}.level=={lv}"]
-    obs.append(ctx.ob("C08.O4", f, ddefs[0] if ddefs else G, status=OK if ok_d else VIOLATION, detail=f"{D} = the candidate parents on level `{lv}`" if ok_d else f"`{D}` is not exactly the candidate parents whose level is `{lv}`", construct="level-parents"))
+    st_d = INCONCLUSIVE
+    if len(ddefs) == 1 and isinstance(ddefs[0], ast.ListComp) and len(ddefs[0].generators) == 1 and canon(ddefs[0].generators[0].iter) in (f"{cand_p}.keys()", cand_p, f"list({cand_p})", f"list({cand_p}.keys())") and isinstance(ddefs[0].generators[0].target, ast.Name) and norm(ddefs[0].elt) == ddefs[0].generators[0].target.id:
+        dv = ddefs[0].generators[0].target.id
+        cs = ddefs[0].generators[0].ifs
+        if len(cs) == 1 and (cond_is(cs[0], f"{dv}.level == {lv}") or cond_is(cs[0], f"{lv} == {dv}.level")):
+            st_d = OK
+        elif len(cs) == 1 and isinstance(cs[0], ast.Compare) and f"{dv}.level" in canon(cs[0]) and lv in canon(cs[0]):
+            st_d = VIOLATION
+    obs.append(ctx.ob("C08.O4", f, ddefs[0] if ddefs else G, status=st_d, detail=f"{D} = the candidate parents on level `{lv}`" if st_d == OK else f"`{D}` is not exactly the candidate parents whose level is `{lv}`", construct="level-parents"))
     # ---- sort of C
     sorts = []
     for n in L.body:
@@ -249,7 +371,7 @@ def o4(ctx: Ctx):
     g = comp.generators[0]
     wl = [n for n in ast.walk(G) if isinstance(n, ast.For) and any(x is W for x in ast.walk(n))]
     ok_w = len(wl) == 1 and isinstance(wl[0].target, ast.Name) and norm(wl[0].iter) == D and canon(W.targets[0]) == f"{cand_p}[{wl[0].target.id}].individuals" and len(comp.generators) == 1 and canon(g.iter) == f"{cand_p}[{wl[0].target.id}].individuals" and isinstance(g.target, ast.Name) and norm(comp.elt) == g.target.id and len(g.ifs) == 1
-    obs.append(ctx.ob("C08.O4", f, W, status=OK if ok_w else VIOLATION, detail=f"every list counted in `{C}` is filtered in place by one predicate" if ok_w else f"the lists filtered after the cut are not exactly the per-parent lists of `{D}` counted in `{C}` (some counted candidates escape the cut)", construct="write-back"))
+    obs.append(ctx.ob("C08.O4", f, W, status=OK if ok_w else INCONCLUSIVE, detail=f"every list counted in `{C}` is filtered in place by one predicate" if ok_w else f"the lists filtered after the cut are not exactly the per-parent lists of `{D}` counted in `{C}` (some counted candidates escape the cut)", construct="write-back"))
     if not ok_w:
         return obs
     ind = g.target.id
@@ -274,7 +396,14 @@ def o4(ctx: Ctx):
     want_right = (key_txt or "$").replace("$", want_piv_el)
     ok_piv = rexp == want_right
     if not ok_piv:
-        obs.append(ctx.ob("C08.O4", f, r, status=VIOLATION, detail=f"the pivot is `{rexp}`; the counting argument needs `{want_right}` (index limit - active of the sorted level candidates): with a shifted index up to one more candidate per level survives", construct="pivot"))
+        # positive evidence = same shape with another index built from limit / active and integer constants
+        pre, post = want_right.split(piv_idx) if piv_idx in want_right else (None, None)
+        definite = False
+        if pre is not None and rexp.startswith(pre) and rexp.endswith(post):
+            idx = rexp[len(pre):len(rexp) - len(post)] if post else rexp[len(pre):]
+            rest_idx = idx.replace(f"{sn}.limit", "").replace(canon(A, sub), "")
+            definite = re.fullmatch(r"[-+\d()]*", rest_idx) is not None
+        obs.append(ctx.ob("C08.O4", f, r, status=VIOLATION if definite else INCONCLUSIVE, detail=f"the pivot is `{rexp}`; the counting argument needs `{want_right}` (index limit - active of the sorted level candidates): with a shifted index up to one more candidate per level survives", construct="pivot"))
     else:
         obs.append(ctx.ob("C08.O4", f, r, detail=f"pivot = {C}[limit - active] under the sort key", construct="pivot"))
     ok_key = lk == (key_txt or "$")
@@ -304,15 +433,34 @@ def o5(ctx: Ctx):
     loops = [n for n in f.node.body if isinstance(n, ast.For)]
     if len(loops) != 1:
         return [ctx.ob("C08.O5", f, f.node, status=INCONCLUSIVE, detail="level loop not found", construct="levels")]
-    it = canon(loops[0].iter)
-    ok = it in (f"range(len({tree_p}.levels[:-1]))", f"range(len({tree_p}.levels)-1)", f"range({tree_p}.height-1)")
-    early = [n for n in ast.walk(loops[0]) if isinstance(n, (ast.Break, ast.Return, ast.Continue))]
-    obs = [ctx.ob("C08.O5", f, loops[0], status=OK if ok else VIOLATION, detail="levels 0 .. height-2 are all limited" if ok else f"LevelLimit iterates `{norm(loops[0].iter)}`: some non-leaf level is not limited", construct="levels")]
+    fdefs = local_defs(f)
+    it = canon(loops[0].iter, fdefs)
+    st_l = INCONCLUSIVE
+    m = re.fullmatch(r"range\((.*)\)", it)
+    if m and "," not in m.group(1):
+        from ..core import _split_offset
+
+        arg = ast.parse(m.group(1), mode="eval").body
+        base, off = _split_offset(arg)
+        bt = canon(base)
+        if bt in (f"len({tree_p}.levels[:-1])", f"len({tree_p}._levels[:-1])") and off == 0:
+            st_l = OK
+        elif bt in (f"len({tree_p}.levels)", f"len({tree_p}._levels)", f"{tree_p}.height"):
+            st_l = OK if off == -1 else VIOLATION
+    elif m:
+        parts = [x for x in m.group(1).split(",")]
+        if parts and parts[0] not in ("0",):
+            st_l = VIOLATION if re.fullmatch(r"\d+", parts[0]) else INCONCLUSIVE
+    early = [n for n in ast.walk(loops[0]) if isinstance(n, (ast.Break, ast.Return))]
+    conts = [n for n in ast.walk(loops[0]) if isinstance(n, ast.Continue)]
+    obs = [ctx.ob("C08.O5", f, loops[0], status=st_l, detail="levels 0 .. height-2 are all limited" if st_l == OK else f"LevelLimit iterates `{norm(loops[0].iter)}`: some non-leaf level is not limited" if st_l == VIOLATION else f"cannot tell which levels `{norm(loops[0].iter)}` covers", construct="levels")]
     if early:
-        obs.append(ctx.ob("C08.O5", f, early[0], status=VIOLATION, detail="the level loop can skip or stop early", construct="levels-early"))
+        obs.append(ctx.ob("C08.O5", f, early[0], status=VIOLATION, detail="the level loop can stop early", construct="levels-early"))
+    if conts:
+        obs.append(ctx.ob("C08.O5", f, conts[0], status=INCONCLUSIVE, detail="the level loop can skip a level", construct="levels-early"))
     rets = [r for r in body_walk(f.node) if isinstance(r, ast.Return)]
-    okr = len(rets) == 1 and norm(rets[0].value) == f.params()[1]
-    obs.append(ctx.ob("C08.O5", f, rets[0] if rets else f.node, status=OK if okr else VIOLATION, detail="returns the filtered mapping" if okr else "LevelLimit does not return the mapping it filtered", construct="returns"))
+    okr = len(rets) == 1 and rets[0].value is not None and norm(rets[0].value) == f.params()[1]
+    obs.append(ctx.ob("C08.O5", f, rets[0] if rets else f.node, status=OK if okr else VIOLATION if (not rets or any(r.value is None for r in rets)) else INCONCLUSIVE, detail="returns the filtered mapping" if okr else "LevelLimit does not return the mapping it filtered", construct="returns"))
     return obs
 
 
